@@ -99,6 +99,9 @@ func verifAnyPresentation(m *verifTLSModel) [][]byte {
 	var raw [][]byte
 	for i := 0; i < n; i++ {
 		c := &x509.Certificate{Raw: []byte{byte(i), 0xAA}, Extensions: []pkix.Extension{{Value: []byte{byte(i)}}}}
+		if i == 0 {
+			c.IsCA = verifapi.Bool() // what the peer proves to own is the FIRST certificate, whatever kind it is
+		}
 		m.certs = append(m.certs, verifCertSpec{parses: verifapi.Bool(), cert: c})
 		raw = append(raw, []byte{byte(i), 0xAA})
 	}
